@@ -55,7 +55,7 @@ theorem tokensToString_blankSep (t : Tok) (ts : List Tok) :
 
 /-- loop invariant after token `a` has been processed -/
 structure Inv (st : St) (a : Tok) : Prop where
-  ln : st.lineNum = a.lineno
+  ln : st.lineNum = a.lineno + nl a.value
   lp : st.lastPos = a.index + a.value.length
   sh : st.shift + st.line.length = st.lastPos
 
@@ -63,10 +63,10 @@ theorem inv_init (t : Tok) : Inv (step (init t) t) t := by
   constructor <;> simp [step, init]
 
 theorem step_inv (st : St) (a b : Tok) (hi : Inv st a)
-    (hw : a.index + a.value.length + (if b.lineno ≠ a.lineno then 1 else 0) ≤ b.index) :
+    (hw : a.index + a.value.length + (if b.lineno ≠ a.lineno + nl a.value then 1 else 0) ≤ b.index) :
     Inv (step st b) b ∧ (step st b).out = st.out ++ sepBy (·.value) a b ++ b.value := by
   obtain ⟨h1, h2, h3⟩ := hi
-  by_cases h : b.lineno ≠ a.lineno
+  by_cases h : b.lineno ≠ a.lineno + nl a.value
   · have h' : b.lineno ≠ st.lineNum := by rw [h1]; exact h
     rw [if_pos h] at hw
     refine ⟨⟨?_, ?_, ?_⟩, ?_⟩
@@ -168,7 +168,7 @@ theorem tailBy_blankSep (f : Tok → Str) : ∀ (r : List Tok) (a : Tok),
 /-! ### source layouts -/
 
 theorem place_tail (c : ActCfg) (segs : List Seg) : ∀ (idx line : Nat) (a : Tok),
-    a.index + a.src.length = idx → a.lineno = line →
+    a.index + a.src.length = idx → a.lineno + nl a.src = line →
     (∀ s ∈ segs, s.dl ≠ 0 → s.gap ≠ []) →
     tailBy (·.src) a (place c idx line segs) = storedTail segs ∧
     wfBy (·.src) a (place c idx line segs) = true := by
@@ -177,7 +177,7 @@ theorem place_tail (c : ActCfg) (segs : List Seg) : ∀ (idx line : Nat) (a : To
   | cons s r ih =>
     intro idx line a ha hl hg
     have hs := hg s (List.mem_cons_self ..)
-    have ih' := ih (idx + s.gap.length + s.src.length) (line + s.dl)
+    have ih' := ih (idx + s.gap.length + s.src.length) (line + s.dl + nl s.src)
       (lexTok c s.type s.src (line + s.dl) (idx + s.gap.length)) (by simp [lexTok]) (by simp [lexTok])
       (fun t ht => hg t (List.mem_cons_of_mem _ ht))
     have hgap : idx + s.gap.length - (a.index + a.src.length) = s.gap.length := by omega
@@ -223,9 +223,9 @@ theorem blank_blank (s : Seg) : ∀ c ∈ blank s, isBlank c := by
 /-! ### columns -/
 
 theorem sepBy_length (f : Tok → Str) (a b : Tok)
-    (hw : a.index + (f a).length + (if b.lineno ≠ a.lineno then 1 else 0) ≤ b.index) :
+    (hw : a.index + (f a).length + (if b.lineno ≠ a.lineno + nl (f a) then 1 else 0) ≤ b.index) :
     (sepBy f a b).length + (a.index + (f a).length) = b.index := by
-  by_cases h : b.lineno ≠ a.lineno
+  by_cases h : b.lineno ≠ a.lineno + nl (f a)
   · rw [if_pos h] at hw
     have : sepBy f a b = '\n' :: List.replicate (b.index - (a.index + (f a).length) - 1) ' ' := by
       simp [sepBy, h]
